@@ -29,8 +29,11 @@ AUDIT = "PysamlModel/Audit/C11.lean"
 DRIVER = "Drivers/C11.lean"
 CORRESPONDENCE = ("Drivers/C11.lean (MdStore.run under Policy.code) vs MetadataStore.imp/reload and every lookup, "
                   "observation by observation over whole histories")
-RULE = ("random histories: 1-3 sources (file, inline, loader, remote via stubbed HTTPBase.send, MDQ via stubbed "
-        "requests.get) x random documents (1-6 entities, repeated ids, any mix of roles, 0-4 endpoints per service "
+RULE = ("random histories: 1-4 sources in every configuration form (old style local file / local directories with "
+        "recurring file names / inline str or bytes / remote / mdfile dump / loader / mdq, new style class+metadata lists "
+        "incl. a trailing directory and MetaDataMD; remote and MDQ answered by real requests Response objects with "
+        "varying Content-Type) x document bytes (UTF-8 with/without declaration or BOM, UTF-16, ISO-8859-1; non-ASCII "
+        "entityIDs, Locations, registration authorities, category values) x random documents (1-6 entities, repeated ids, any mix of roles, 0-4 endpoints per service "
         "and binding, key use signing/encryption/absent, validUntil around now, protocol lists with/without SAML 2.0, "
         "entity attributes, registration info, requested attributes) x signature state x certificate configured or "
         "not; load, reload with the k-th source failing (missing, malformed, bad signature, HTTP error status with or "
@@ -56,6 +59,12 @@ ASSUMPTIONS = [
     "quantifier; the model covers it, the generator does not produce it)",
     "sources are configured through MetadataStore.imp (old- and new-style specifications); discovery-response "
     "extensions are covered by C08",
+    "a local directory is its files as consecutive file sources in listing order (os.listdir inside saml2.mdstore is "
+    "stubbed to the case's order); a new-style directory entry's certificate holds for each of its files (which, like "
+    "any MetaDataFile built by imp, have no SecurityContext: signed documents fail closed). Not generated: one entry "
+    "whose metadata list names a certificate for one key and none for a later key (kwargs['cert'] leaks forward)",
+    "an mdfile (MetaDataMD) source is fed the dump pysaml2's own dumps() makes of the document at the same instant; "
+    "MetaDataMD.load applies no filter of its own, stale or hand-made dumps are outside",
     "validUntil is evaluated when a document is read (the code never re-evaluates it afterwards)",
 ]
 EXHAUSTIVE = False
@@ -229,6 +238,29 @@ def doc_xml(d):
     return xml
 
 
+ENCODINGS = ["utf-8", "utf-8", "utf-8", "utf-8", "utf-8-nodecl", "utf-8-bom", "utf-16", "iso-8859-1"]
+CTYPES = ["application/samlmetadata+xml", "text/xml", "text/xml", "application/xml", "text/xml; charset=utf-8",
+          "application/samlmetadata+xml; charset=utf-8", "text/plain", None]
+FILE_NAMES = ["idps.xml", "sps.xml", "fed.xml", "md.xml"]
+
+
+def doc_bytes(d):
+    """the document as the BYTES a file / server holds: encoding and XML declaration as `enc` says (the
+    signature, if any, was made over the text; the stand-in and every XML parser go by the declaration / BOM)"""
+    text = doc_xml(d)
+    body = text.split("?>\n", 1)[1]
+    enc = d.get("enc", "utf-8")
+    if enc == "utf-8":
+        return ('<?xml version="1.0" encoding="UTF-8"?>\n' + body).encode("utf-8")
+    if enc == "utf-8-nodecl":
+        return body.encode("utf-8")
+    if enc == "utf-8-bom":
+        return b"\xef\xbb\xbf" + ('<?xml version="1.0" encoding="UTF-8"?>\n' + body).encode("utf-8")
+    if enc == "utf-16":
+        return ('<?xml version="1.0" encoding="UTF-16"?>\n' + body).encode("utf-16")
+    return ('<?xml version="1.0" encoding="ISO-8859-1"?>\n' + body).encode("latin-1")
+
+
 # ------------------------------------------------------------------ generator
 
 
@@ -240,6 +272,8 @@ class G:
         self.tier = tier
         self.n = 0
         self.eids = ["https://e%d.c11.example/ent" % i for i in range(rng.randint(2, 4))]
+        if rng.random() < 0.4:   # IRIs are legal anyURI values: a non-ASCII (Latin-1) entityID
+            self.eids[rng.randrange(len(self.eids))] = "https://e9.c11.example/m\u00e9tadonn\u00e9es"
         # whether the case may exercise the known departure of the code from the property (F9); MDQ
         # answers with a bad signature (the input class of F11, fixed by 85b6178b) occur in every mode
         self.mode = rng.choice(["clean", "clean", "f9"])
@@ -269,7 +303,8 @@ class G:
             n = r.randint(lo, 4) if mandatory or r.random() < 0.5 else 0
             bs = r.sample(BINDINGS, r.randint(1, 3))
             for i in range(n):
-                ep = {"svc": svc, "binding": r.choice(bs), "location": "%s/%s/%s/%d" % (host, tag, svc, i),
+                ep = {"svc": svc, "binding": r.choice(bs),
+                      "location": "%s/%s/%s/%d%s" % (host, tag, svc, i, "/m\u00fcnchen" if r.random() < 0.12 else ""),
                       "index": str(r.choice([i, i, i + 10])) if indexed else None}
                 if r.random() < 0.06 and eps:
                     ep["location"] = eps[-1]["location"]
@@ -296,11 +331,12 @@ class G:
         attrs = []
         for _ in range(r.choice([0, 0, 1, 1, 2, 3])):
             name = r.choice([_st["c"]["ec"], _st["c"]["ec"], ECS, "urn:oid:1.3.6.1.4.1.5923.1.1.1.7"])
-            attrs.append([name, ["https://cat.c11.example/%s/%d" % (tag, r.randrange(4)) for _ in range(r.randint(1, 2))]])
+            attrs.append([name, ["https://cat.c11.example/%s/%d%s" % (tag, r.randrange(4), "/cat\u00e9gorie" if r.random() < 0.1 else "")
+                                 for _ in range(r.randint(1, 2))]])
         regs = []
         for _ in range(r.choice([0, 0, 1, 1, 1, 2])):
             langs = r.sample(["en", "sv", "de"], r.randint(0, 2))
-            regs.append({"authority": "https://reg.c11.example/%s" % self.tag("ra"),
+            regs.append({"authority": "https://%s.c11.example/%s" % (r.choice(["reg", "reg", "f\u00e9d\u00e9ration"]), self.tag("ra")),
                          "instant": r.choice([None, S.fmt_time(now - 86400 * r.randint(1, 900))]),
                          "policies": [[l, "https://reg.c11.example/policy/%s" % l] for l in langs]})
         e = {"id": eid, "tag": tag, "valid_until": self.vu(now), "roles": roles, "attrs": attrs, "regs": regs}
@@ -314,7 +350,8 @@ class G:
             single = r.random() < 0.25
         c = r.randrange(8)
         sig = "unsigned" if c < 4 else "valid" if c < 6 else "tampered" if c == 6 else "wrongkey"
-        d = {"group": not single, "valid_until": None, "sig": sig, "embed": r.random() < 0.4, "doc_id": self.tag("g")}
+        d = {"group": not single, "valid_until": None, "sig": sig, "embed": r.random() < 0.4, "doc_id": self.tag("g"),
+             "enc": r.choice(ENCODINGS), "as_str": r.random() < 0.5}
         if single:
             d["entities"] = [self.ent(r.choice(eids or self.eids), now, True)]
         else:
@@ -334,10 +371,12 @@ class G:
             f = {"t": "unavailable", "how": r.choice(["404", "500", "503"]) if kind in ("remote", "mdq") else "missing"}
             if kind == "remote" and r.random() < 0.7:
                 f["body_doc"] = self.doc(now)  # an error status whose body is perfectly good metadata
+            f["ctype"] = r.choice(CTYPES)
             return f
         if fail in ("malformed", "unavailable"):
-            return {"t": "malformed", "text": r.choice(["<md:EntitiesDescriptor", "", "not xml at all <<", "<a><b></a>"])}
-        return {"t": "doc", "doc": self.doc(now)}
+            return {"t": "malformed", "text": r.choice(["<md:EntitiesDescriptor", "", "not xml at all <<", "<a><b></a>"]),
+                    "ctype": r.choice(CTYPES)}
+        return {"t": "doc", "doc": self.doc(now), "ctype": r.choice(CTYPES)}
 
     def spec(self, now, i, kind=None, fail=None):
         r = self.rng
@@ -382,7 +421,12 @@ class G:
     def specs(self, now, fail_at=None):
         r = self.rng
         n = r.choice([1, 1, 2, 2, 2, 3, 3])
-        sps = [self.spec(now, i) for i in range(n)]
+        self.force_dirs = r.random() < 0.15
+        if self.force_dirs:   # several local directories with the same file names (plus, sometimes, another source)
+            n = r.choice([2, 3, 3, 4])
+            sps = [self.spec(now, i, kind="file" if i < n - 1 or r.random() < 0.6 else None) for i in range(n)]
+        else:
+            sps = [self.spec(now, i) for i in range(n)]
         if fail_at is not None and fail_at < n:
             self.break_spec(sps[fail_at], now)
         style = "new"
@@ -399,7 +443,60 @@ class G:
         else:
             for s in sps:
                 s["chk"] = True
+        if self.force_dirs:
+            style = "old" if r.random() < 0.8 else style
+            for s in sps:
+                s["force_dirs"] = True
         return sps, style
+
+    def shape(self, op):
+        """choose the CONFIGURATION FORM of the sources of one imp / reload (the abstract source list and its
+        order stay what they are): old-style type grouping, MetaDataMD dump files, local directories"""
+        r = self.rng
+        sps = op["specs"]
+        if any([s.pop("force_dirs", False) for s in sps]):
+            op["force_dirs"] = True
+        for s in sps:
+            if s["kind"] == "file" and r.random() < 0.15 and not op.get("force_dirs"):
+                s["form"] = "mdfile"      # a dump of already digested metadata: {"mdfile": [...]} / MetaDataMD
+                s["cert"] = False
+        if op["style"] == "old":
+            order = []
+            for s in sps:  # an old-style specification is a dict type -> sources: same types are contiguous
+                if _cfgtype(s) not in order:
+                    order.append(_cfgtype(s))
+            sps.sort(key=lambda s: order.index(_cfgtype(s)))
+            for s in sps:
+                if s["kind"] == "file":
+                    s["cert"] = False  # {"local": [...]} cannot name a certificate
+        # local directories: a run of consecutive plain-file sources becomes the files of one or more directories.
+        # New style (since fix e209f727): a directory entry may be followed by further entries and may name a
+        # certificate, which then holds for every file of the directory.
+        i, ndir = 0, 0
+        while i < len(sps):
+            if _cfgtype(sps[i]) != "file":
+                i += 1
+                continue
+            j = i
+            while j < len(sps) and _cfgtype(sps[j]) == "file":
+                j += 1
+            k = i
+            while k < j:
+                force = op.get("force_dirs")
+                size = r.randint(1, min(2, j - k)) if force else r.randint(1, j - k)
+                group = sps[k:k + size]
+                if force or r.random() < 0.45:
+                    dname = "dir%s" % "ABCDEF"[ndir % 6]
+                    ndir += 1
+                    dcert = op["style"] == "new" and r.random() < 0.4
+                    for s, name in zip(group, r.sample(FILE_NAMES[:2] if force else FILE_NAMES, len(group))):
+                        s["dir"] = dname
+                        s["cert"] = dcert
+                        s["key"] = "%s/%s" % (dname, name)   # same file names recur in different directories
+                        if s["fetch"]["t"] == "unavailable":  # a file that is not there is not listed either
+                            s["fetch"] = {"t": "malformed", "text": "<broken"}
+                k += size
+            i = j
 
     # ---- queries
 
@@ -441,7 +538,7 @@ class G:
                 f = sp["fetch"]
                 if f["t"] == "doc" and sp["cert"] and sp["kind"] != "inline" and f["doc"]["sig"] == "unsigned":
                     if self.mode != "f9":
-                        if self.rng.random() < 0.5:
+                        if sp.get("dir") or self.rng.random() < 0.5:   # a directory's certificate is the entry's
                             f["doc"]["sig"] = "valid"
                         else:
                             sp["cert"] = False
@@ -452,7 +549,14 @@ class G:
                         f["doc"]["sig"] = "valid"
 
 
+def _cfgtype(s):
+    return "mdfile" if s.get("form") == "mdfile" else s["kind"]
+
+
 def case_of(g, steps):
+    for st in steps:
+        if "specs" in st["op"]:
+            g.shape(st["op"])
     g.adjust(steps)
     return {"consts": _st["c"], "mode": g.mode, "steps": steps}
 
@@ -586,22 +690,22 @@ def _mdq_answers(self, now, sps):
             if c < 2:
                 continue  # 404 (no entry = unavailable)
             if c == 2:
-                f = {"t": "unavailable", "how": r.choice(["500", "404", "503"])}
+                f = {"t": "unavailable", "how": r.choice(["500", "404", "503"]), "ctype": r.choice(CTYPES)}
                 if r.random() < 0.7:
                     f["body_doc"] = self.doc(now, single=True, eids=[eid])
                     f["body_doc"]["sig"] = "valid"
                 out.append({"src": key, "eid": eid, "fetch": f})
             elif c == 3:
-                out.append({"src": key, "eid": eid, "fetch": {"t": "malformed", "text": "<broken"}})
+                out.append({"src": key, "eid": eid, "fetch": {"t": "malformed", "text": "<broken", "ctype": r.choice(CTYPES)}})
             elif c == 4 and not self.mdq_cert.get(key):
                 # an (unsigned) EntitiesDescriptor as MDQ answer: repeated / expired occurrences of the entity,
                 # possibly past the group's own validUntil
                 d = self.doc(now, single=False, eids=[eid])
                 d["sig"] = "unsigned"
-                out.append({"src": key, "eid": eid, "fetch": {"t": "doc", "doc": d}})
+                out.append({"src": key, "eid": eid, "fetch": {"t": "doc", "doc": d, "ctype": r.choice(CTYPES)}})
             else:
                 d = self.doc(now, single=True, eids=[eid])
-                out.append({"src": key, "eid": eid, "fetch": {"t": "doc", "doc": d}})
+                out.append({"src": key, "eid": eid, "fetch": {"t": "doc", "doc": d, "ctype": r.choice(CTYPES)}})
     return out
 
 
@@ -625,21 +729,42 @@ def gen_cases(rng, tier):
 # ------------------------------------------------------------------ implementation side
 
 
-class _Resp:
-    def __init__(self, code, content):
-        self.status_code = code
-        self.content = content
-        self.text = content.decode("utf-8", "replace") if isinstance(content, bytes) else content
+def _resp(code, content, ctype=None, url=None):
+    """a real requests Response, set up the way the HTTP adapter does (so .text goes by the header charset)"""
+    from requests.models import Response
+    from requests.utils import get_encoding_from_headers
+
+    r = Response()
+    r.status_code = code
+    r._content = content
+    r.url = url
+    if ctype:
+        r.headers["Content-Type"] = ctype
+    r.encoding = get_encoding_from_headers(r.headers)
+    return r
 
 
 def _content(f):
-    """(status, body) a stubbed server returns for an abstract fetch outcome"""
+    """(status, body bytes, Content-Type) a stubbed server returns for an abstract fetch outcome"""
     if f["t"] == "doc":
-        return 200, doc_xml(f["doc"]).encode("utf-8")
+        return 200, doc_bytes(f["doc"]), f.get("ctype")
     if f["t"] == "malformed":
-        return 200, f.get("text", "<broken").encode("utf-8")
+        return 200, f.get("text", "<broken").encode("utf-8"), f.get("ctype")
     status = int(f.get("how", "404")) if f.get("how", "404").isdigit() else 404
-    return status, (doc_xml(f["body_doc"]).encode("utf-8") if f.get("body_doc") else b"")
+    return status, (doc_bytes(f["body_doc"]) if f.get("body_doc") else b""), f.get("ctype")
+
+
+class _OsShim:
+    """stands in for `os` inside saml2.mdstore: the listing ORDER of a metadata directory is the case's"""
+
+    def __init__(self):
+        self.listing = {}
+
+    def listdir(self, path):
+        return list(self.listing[path]) if path in self.listing else os.listdir(path)
+
+    def __getattr__(self, k):
+        return getattr(os, k)
 
 
 class _Requests:
@@ -649,7 +774,7 @@ class _Requests:
         self.answers = {}
 
     def get(self, url, headers=None, timeout=None, **kw):
-        return _Resp(*self.answers.get(url, (404, b"")))
+        return _resp(*self.answers.get(url, (404, b"", None)), url=url)
 
 
 def _mdq_url(src, eid):
@@ -658,13 +783,47 @@ def _mdq_url(src, eid):
     return "%s/entities/%s" % (src.rstrip("/"), MetaDataMDX.sha1_entity_transform(eid))
 
 
-def _build_spec(op, tmp, remote):
+def _build_spec(op, tmp, remote, listing):
     """abstract source list -> the configuration value MetadataStore.imp / reload takes"""
+    from saml2.mdstore import InMemoryMetaData
+
     old, new = {}, []
+    seen_dirs = set()
     for sp in op["specs"]:
         kind, f = sp["kind"], sp["fetch"]
         cert = S.cert_path(FED_KEY) if sp["cert"] else None
-        if kind == "file":
+        if kind == "file" and sp.get("dir"):
+            dpath = os.path.join(tmp, sp["dir"])
+            if dpath not in seen_dirs:      # first file of the directory: start from an empty directory
+                seen_dirs.add(dpath)
+                shutil.rmtree(dpath, ignore_errors=True)
+                os.makedirs(dpath)
+                listing[dpath] = []
+                old.setdefault("local", []).append(dpath)
+                new.append({"class": "saml2.mdstore.MetaDataFile", "metadata": [(dpath, cert) if cert else (dpath,)]})
+            name = sp["key"].split("/", 1)[1]
+            listing[dpath].append(name)
+            with open(os.path.join(dpath, name), "wb") as fp:
+                fp.write(_content(f)[1])
+        elif kind == "file" and sp.get("form") == "mdfile":
+            path = os.path.join(tmp, sp["key"])
+            if f["t"] == "unavailable":
+                if os.path.exists(path):
+                    os.remove(path)
+            else:
+                dump = b"this is not a metadata dump"
+                if f["t"] == "doc":   # the dump pysaml2 itself writes for this document, made at this instant
+                    try:
+                        m = InMemoryMetaData(_st["attrc"], doc_bytes(f["doc"]))
+                        m.load()
+                        dump = m.dumps().encode("utf-8")
+                    except Exception:  # a document that cannot be digested leaves no usable dump
+                        pass
+                with open(path, "wb") as fp:
+                    fp.write(dump)
+            old.setdefault("mdfile", []).append(path)
+            new.append({"class": "saml2.mdstore.MetaDataMD", "metadata": [(path,)]})
+        elif kind == "file":
             path = os.path.join(tmp, sp["key"])
             if f["t"] == "unavailable":
                 if os.path.exists(path):
@@ -675,7 +834,9 @@ def _build_spec(op, tmp, remote):
             old.setdefault("local", []).append(path)
             new.append({"class": "saml2.mdstore.MetaDataFile", "metadata": [(path, cert) if cert else (path,)]})
         elif kind == "inline":
-            text = _content(f)[1].decode("utf-8")
+            text = _content(f)[1]
+            if f["t"] != "doc" or (f["doc"].get("as_str") and f["doc"].get("enc", "utf-8") in ("utf-8", "utf-8-nodecl")):
+                text = text.decode("utf-8")   # inline metadata is usually configured as str
             old.setdefault("inline", []).append(text)
             new.append({"class": "saml2.mdstore.InMemoryMetaData", "metadata": [(text,)]})
         elif kind == "loader":
@@ -770,22 +931,23 @@ def run_impl(case):
 
     tmp = tempfile.mkdtemp(prefix="verif-c11-")
     req = _Requests()
-    real_requests = M.requests
+    real_requests, real_os = M.requests, M.os
     M.requests = req
+    M.os = _OsShim()
     remote = {}
     obs = []
     quiet = contextlib.redirect_stderr(io.StringIO())  # do_entity_descriptor prints every repeated entityID
     quiet.__enter__()
     try:
         store = MetadataStore(_st["attrc"], _st["conf"])
-        store.http.send = lambda url, **kw: _Resp(*remote.get(url, (404, b"")))
+        store.http.send = lambda url, **kw: _resp(*remote.get(url, (404, b"", None)), url=url)
         for st in case["steps"]:
             if st.get("mdq") is not None:
                 req.answers = {_mdq_url(m["src"], m["eid"]): _content(m["fetch"]) for m in st["mdq"]}
             op = st["op"]
             with S.clock(st["now"]):
                 if op["t"] in ("imp", "reload"):
-                    spec = _build_spec(op, tmp, remote)
+                    spec = _build_spec(op, tmp, remote, M.os.listing)
                     try:
                         if op["t"] == "imp":
                             store.imp(spec)
@@ -798,7 +960,7 @@ def run_impl(case):
                     obs.append(_query(store, op["q"]))
     finally:
         quiet.__exit__(None, None, None)
-        M.requests = real_requests
+        M.requests, M.os = real_requests, real_os
         shutil.rmtree(tmp, ignore_errors=True)
     return {"obs": obs}
 
@@ -832,17 +994,49 @@ def _features(case):
     return f9, f11
 
 
+def _pre_e209f727(case):
+    """the history as new-style imp treated it BEFORE fix e209f727: the import ended after the first directory
+    entry and the directory's files were loaded without the entry's certificate; None = no such input"""
+    c = json.loads(json.dumps(case))
+    hit = False
+    for st in c["steps"]:
+        op = st["op"]
+        if op.get("style") != "new" or "specs" not in op:
+            continue
+        sps = op["specs"]
+        first = next((i for i, sp in enumerate(sps) if sp.get("dir")), None)
+        if first is None:
+            continue
+        end = first
+        while end < len(sps) and sps[end].get("dir") == sps[first]["dir"]:
+            end += 1
+        if end < len(sps) or any(sp["cert"] for sp in sps[first:end]):
+            hit = True
+        for sp in sps[first:end]:
+            sp["cert"] = False
+        op["specs"] = sps[:end]
+    return c if hit else None
+
+
 def finding_key(case, impl, lean):
     """A failing history is attributed to a root-cause class only if (a) it contains an input of that
     class and (b) the implementation's observations are exactly what the reference machine gives once
-    that ONE departure is granted (computed by the Lean driver).  F9 is a `known` record; the F11 class
-    is `fixed` (85b6178b): naming it suppresses nothing, it tells the reader that the old defect is back."""
+    that ONE departure is granted (computed by the Lean driver).  F9 is a `known` record; the other
+    classes are `fixed` (85b6178b, e209f727): naming them suppresses nothing, it tells the reader which
+    old defect is back."""
     why = lean.get("why") or {}
     f9, f11 = _features(case)
     if f9 and why.get("holds_if_unsigned_passes") is True:
         return "C11/unsigned-document-served-despite-cert"
     if f11 and why.get("holds_if_mdq_stores_first") is True:
         return "C11/mdq-failed-verification-leaves-entity"
+    old = _pre_e209f727(case)
+    if old is not None:
+        import runner
+
+        ans = runner.run_driver(DRIVER, [{"case": old, "impl": impl}])[0]
+        if ans.get("spec_impl") is True or (ans.get("why") or {}).get("holds_if_unsigned_passes") is True:
+            return "C11/directory-entry-ends-import-and-drops-certificate"
     return None
 
 
@@ -937,7 +1131,11 @@ def distribution(recs):
             a = k + "->" + (o["a"] if o["a"] != "done" else ("ok" if o["ok"] else "failed"))
             d["answers"][a] = d["answers"].get(a, 0) + 1
             for sp in op.get("specs", []):
-                d["sources"][sp["kind"]] = d["sources"].get(sp["kind"], 0) + 1
+                form = "%s%s/%s" % (_cfgtype(sp), "-in-directory" if sp.get("dir") else "", op.get("style"))
+                d["sources"][form] = d["sources"].get(form, 0) + 1
+                if sp["fetch"]["t"] == "doc":
+                    e = "enc:" + sp["fetch"]["doc"].get("enc", "utf-8")
+                    d["sources"][e] = d["sources"].get(e, 0) + 1
                 if sp["fetch"]["t"] == "doc":
                     k2 = "%s/%s" % (sp["fetch"]["doc"]["sig"], "cert" if sp["cert"] else "no-cert")
                     d["sig_x_cert"][k2] = d["sig_x_cert"].get(k2, 0) + 1
